@@ -405,7 +405,9 @@ def h_cli(k):
 
 
 CLI_PSKS = ('hunter2-secret', '0x1234zz5678', '0xdeadbeefcafe', '0Xnot-hex', 'base64:QUJDREVG', ' psk with spaces ', '1234567890', '@/etc/ipsec.secrets', '{psk}', '%s%s%n')
-CLI_ERRORS = ('none', 'bad_my_addr', 'not_listening', 'unknown_alg', 'bad_lifetime', 'bad_protect', 'missing_peer_auth')
+CLI_ERRORS = ('none', 'bad_my_addr', 'not_listening', 'unknown_alg', 'bad_lifetime', 'bad_protect', 'missing_peer_auth',
+              # the file is not even YAML, and the line that breaks it is a line holding a pre-shared key (written unquoted / with a stray quote)
+              'yaml_psk_unquoted_at', 'yaml_psk_colon', 'yaml_psk_open_quote', 'yaml_psk_tab')
 
 
 def h_cli_config():
@@ -439,7 +441,13 @@ def h_cli_config():
         del conn['peer_auth']['id']
         conn['peer_auth']['pubkey'] = 'garbage'
     fd, path = tempfile.mkstemp(suffix='.yaml', dir='/var/tmp')
-    os.write(fd, yaml.safe_dump({'conn': conn}).encode())
+    doc = yaml.safe_dump({'conn': conn})
+    if err.startswith('yaml_psk'):
+        conn['my_auth']['psk'] = 'PSK_PLACEHOLDER_A'
+        doc = yaml.safe_dump({'conn': conn})
+        typed = {'yaml_psk_unquoted_at': '@' + psk_a, 'yaml_psk_colon': psk_a + ': &x *y [', 'yaml_psk_open_quote': '"' + psk_a, 'yaml_psk_tab': '\t' + psk_a + ' {'}[err]
+        doc = doc.replace('PSK_PLACEHOLDER_A', typed)
+    os.write(fd, doc.encode())
     os.close(fd)
     records, started = [], []
     ic = MODS['ikesacontroller']
